@@ -45,6 +45,17 @@ func (w *Worker) feasible(st *State, lit *Term) (bool, *Model) {
 		atomic.AddInt64(&w.e.res.ModelHits, 1)
 		return true, st.model
 	}
+	// syntactic shortcut: the path condition already contains the literal's negation (a branch
+	// condition met a second time, e.g. the same input decoded twice)
+	if len(st.pc) > 0 {
+		n1, n2 := Not(lit).Hash()
+		for _, p := range st.pc {
+			if a, b := p.Hash(); a == n1 && b == n2 {
+				atomic.AddInt64(&w.e.res.ModelHits, 1)
+				return false, nil
+			}
+		}
+	}
 	q := make([]*Term, 0, len(st.pc)+1)
 	q = append(q, st.pc...)
 	q = append(q, lit)
